@@ -269,6 +269,10 @@ def layered(inp):
     # Loop over receivers.
     for i, (rkey, rec) in enumerate(receivers.items()):
 
+        # Relative receivers: use the absolute coordinates for this source.
+        if rec.relative:
+            rec = rec.__class__(rec.coordinates_abs(src))
+
         # Check observed data, limit to finite values if provided.
         if observed is not None:
             fi = np.isfinite(observed.loc[rkey, :].data)
